@@ -175,12 +175,27 @@ pub fn negative_table() -> Vec<Negative> {
             if w >= 2 {
                 forms.push(("write-to-repeated-swizzle", String::new(), format!("{} m = {};", t, v1), "m.xx".into(), "m.xy".into()));
             }
+            if w >= 3 {
+                // the repeated component need not be adjacent
+                forms.push(("write-to-repeated-swizzle-3", String::new(), format!("{} m = {};", t, v1), "m.xyx".into(), "m.xyz".into()));
+                forms.push(("write-to-repeated-swizzle-3", String::new(), format!("{} m = {};", t, v1), "m.zyz".into(), "m.zyx".into()));
+            }
+            if w >= 4 {
+                forms.push(("write-to-repeated-swizzle-4", String::new(), format!("{} m = {};", t, v1), "m.xyzx".into(), "m.xyzw".into()));
+                forms.push(("write-to-repeated-swizzle-4", String::new(), format!("{} m = {};", t, v1), "m.wyzy".into(), "m.wyzx".into()));
+            }
             for (class, prelude, decls, bad_t, good_t) in &forms {
                 for (opname, op) in &ops {
                     // the operand type of the repeated swizzle form is the 2-vector
-                    let (sink_t, op_text) = if *class == "write-to-repeated-swizzle" {
-                        let t2 = tname(kind, 2);
-                        (t2.clone(), op.replace(&v2, &value_of(kind, 2, 2)))
+                    let swz_width: usize = match *class {
+                        "write-to-repeated-swizzle" => 2,
+                        "write-to-repeated-swizzle-3" => 3,
+                        "write-to-repeated-swizzle-4" => 4,
+                        _ => 0,
+                    };
+                    let (sink_t, op_text) = if swz_width > 0 {
+                        let t2 = tname(kind, swz_width);
+                        (t2.clone(), op.replace(&v2, &value_of(kind, swz_width, 2)))
                     } else {
                         (t.clone(), op.clone())
                     };
@@ -189,9 +204,9 @@ pub fn negative_table() -> Vec<Negative> {
                             "{}void sink_out(out {} o) {{ o = {}; }}\nvoid sink_inout(inout {} o) {{ o = {}; }}\nvoid test(const {} pc, {} pm)\n{{\n    {}\n    {}\n}}\n",
                             prelude,
                             sink_t,
-                            value_of(kind, if *class == "write-to-repeated-swizzle" { 2 } else { w }, 3),
+                            value_of(kind, if swz_width > 0 { swz_width } else { w }, 3),
                             sink_t,
-                            value_of(kind, if *class == "write-to-repeated-swizzle" { 2 } else { w }, 3),
+                            value_of(kind, if swz_width > 0 { swz_width } else { w }, 3),
                             t,
                             t,
                             decls,
